@@ -9,11 +9,22 @@ Part A (E3): complete enumeration of the notation domains of the statement (stat
         arithmetic): "denotes X" -> the library must accept it and yield exactly X, and the printed form must
         denote X again, re-parse, compare equal and hash equal; "must be refused" -> the library must raise;
         "not a listed notation" -> counted, no verdict.
-Part B (E3): a pool of spellings partitioned by the reference into classes (type, net, octets): every ordered
+        Spellings with an @route suffix / a route= argument are part of the domains: in the default (not route
+        aware) configuration they denote the type / net / octets of the spelling without the route.
+Part B (E3): a pool of spellings partitioned by the reference into classes (type, net, octets, route): every ordered
         pair through the real __eq__/__ne__/__hash__/dict, then symmetry and transitivity over all triples on
-        the recorded matrix.
+        the recorded matrix.  Spellings of one address with different routes (or with and without one) are in the
+        pool too: the reference does not say whether they are equal, but whatever == answers must be symmetric,
+        transitive and agree with hash and with dictionary lookup.
+Part C (E3, histories): every sequence of notations of a representative pool (pairs in quick, triples in
+        thorough; refused notations included as intermediate steps) decoded one after the other into ONE object
+        through the public Address.decode_address(), starting from every kind of holder (null Address, typed
+        constructors with and without route): afterwards the object must denote what the reference says the last
+        notation denotes and print, compare (against every probe address), hash and look up exactly like a fresh
+        Address(last notation).
 """
 import itertools
+import logging
 import time
 
 import bv  # noqa: F401
@@ -30,9 +41,15 @@ RULE = ("part A: every notation of the stated domains is one case, distinct by i
         "(no two cases are the same spelling); non-trivial = the reference gives a verdict (denotes / must be refused), "
         "spellings outside the statement's list are evaluated but carry no verdict and are not counted as distinct; "
         "part B: every ordered pair of the spelling pool is one evaluation (== both ways, !=, hash, dict lookup), "
-        "distinct by pool row; symmetry and transitivity are then decided for all pairs / triples on the recorded matrix")
+        "distinct by pool row; symmetry and transitivity are then decided for all pairs / triples on the recorded matrix; "
+        "part C: one case per (holder, sequence of notations) decoded into one object, distinct by holder and sequence")
 ASSUMPTIONS = [
-    "settings.route_aware is False (the default) and no @route suffix / route= argument is used: equality with routes is knowingly non-transitive and not in the statement's list",
+    "settings.route_aware is False (the default).  @route suffixes and route= arguments are enumerated under that configuration: the reference says "
+    "that they denote the type / net / octets (and IP values) of the spelling without the route, that two spellings of one address with the same route are equal, "
+    "and leaves open whether spellings of one address with different routes (or with and without one) are equal - == must be an equivalence and agree with hash whatever it answers; "
+    "whether the object keeps the route (addrRoute) is not judged; a route= argument that is not a plain local station carries no verdict",
+    "part C judges type / net / octets / length, the IP values when the last notation is an IP form, the printed text, ==, hash and dict lookup of the re-filled object; "
+    "IP helper attributes left over from an earlier IP content when the last notation is not an IP form are not judged (the statement gives them no meaning there)",
     "notations the statement does not list carry no verdict: interface names, the Ethernet colon form, '*:station', leading-zero IP octets, "
     "surrounding white space, octet strings of length 0 or above 7, address words outside 32 bits, negative ports, non-int networks, the Null address",
     "a dotted address without mask is read as /32, without port as port 47808 (Annex J default)",
@@ -46,9 +63,13 @@ BOUNDS = {
              "and through the two-argument constructor; 90 port edges (2^k-1,2^k,2^k+1 up to 2^17, 47800..47831, 70000, 2^32) in 9 port-carrying forms; tuples 12 IPv4 x 10 ports x (host,port)/(int,port); "
              "octet strings: length 1 all 256, length 2 all 144 edge pairs, length 3..7 4 prefixes x 10 tails, in 10 local and 18 remote forms; "
              "refusals: 107 hand-written texts, all strings of length <=3 over 13 symbols, all single-character deletions/insertions/replacements "
-             "of 20 valid spellings over 17 symbols, 8 huge numbers in 21 numeric positions; spelling pool 1432 spellings / 108 addresses, all ordered pairs",
+             "of 20 valid spellings over 17 symbols, 8 huge numbers in 21 numeric positions; routes: 35 address texts x 34 route texts, every route station 0..256 "
+             "in 5 forms, 9 typed constructor calls x 13 route= arguments, 4 nets x 6 routed bodies through the two-argument constructor; "
+             "spelling pool: 1432 route-less spellings / 108 addresses plus 11 of these addresses x 3 routes in every routed spelling (464 spellings), all ordered pairs of the 1896; "
+             "histories: 11 holders x all sequences of length 1 and 2 over 50 notations (12 of them refused) decoded into one object, compared with 48 probe addresses",
     "thorough": "as quick plus every network number 0..65540 in 6 forms, every port 0..65536 in 9 forms, every 2-octet string in 5 forms, 49 IPv4 addresses "
-                "(walking ones), all strings of length <=4 over 13 symbols, spelling pool 4966 spellings / 401 addresses (all 256 local stations in every spelling), all ordered pairs",
+                "(walking ones), all strings of length <=4 over 13 symbols, spelling pool 4966 route-less spellings / 401 addresses (all 256 local stations in every spelling) "
+                "plus 19 addresses x 5 routes in every routed spelling (1173 spellings), all ordered pairs of the 6139; histories: 11 holders x all sequences of length 1, 2 and 3 over 50 notations",
 }
 
 KIND = {
@@ -96,6 +117,11 @@ def TI(word, port):
     return ("t", ("i", word), port)
 
 
+def RT(ctor, inner):
+    """route=ctor(inner) of a typed constructor"""
+    return ("r", ctor, inner)
+
+
 def norm(x):
     """lists (from JSON) back to tuples"""
     if isinstance(x, (list, tuple)):
@@ -117,11 +143,38 @@ def to_arg(a):
 
 
 def build(spec):
-    return CTORS[spec[0]](*[to_arg(a) for a in spec[1:]])
+    args, kw = [], {}
+    for a in spec[1:]:
+        if a[0] == "r":
+            kw["route"] = CTORS[a[1]](to_arg(a[2]))
+        else:
+            args.append(to_arg(a))
+    return CTORS[spec[0]](*args, **kw)
+
+
+def show_arg(a):
+    if a[0] == "r":
+        return "route=%s(%r)" % (a[1], to_arg(a[2]))
+    return repr(to_arg(a))
 
 
 def show(spec):
-    return "%s(%s)" % (spec[0], ", ".join(repr(to_arg(a)) for a in spec[1:]))
+    return "%s(%s)" % (spec[0], ", ".join(show_arg(a) for a in spec[1:]))
+
+
+class _Counting(logging.Handler):
+    """the parser logs 'route provided but not route aware' for every @route spelling: counted, kept off stderr"""
+    records = 0
+
+    def emit(self, record):
+        _Counting.records += 1
+
+
+def quiet_route_warnings():
+    lg = logging.getLogger("bacpypes.pdu")
+    if not any(isinstance(h, _Counting) for h in lg.handlers):
+        lg.addHandler(_Counting(level=logging.WARNING))
+        lg.propagate = False
 
 
 def observe(a):
@@ -174,6 +227,9 @@ def refusal_category(spec, reason):
 
 
 def print_family(s):
+    if "@" in s:
+        left, _, right = s.partition("@")
+        return print_family(left) + "@" + ("ip" if "." in right else "0x" if right.startswith("0x") else "dec" if right.isdigit() else "?")
     pre = ""
     body = s
     if s in ("*", "*:*"):
@@ -214,6 +270,48 @@ def eval_packers(spec):
     if back != (host, port) or back_ba != (host, port):
         fails.append(("packers:unpack_ip_addr-not-inverse", {"tuple": (host, port), "got": [back, back_ba]}))
     return "packers:ok", fails, v
+
+
+def field_faults(a, d, spec):
+    """the object `a` against the denotation `d` of the notation `spec`: type, net, octets, length and - for the IP
+    forms read by Address - the IP values.  -> [(label, detail)]"""
+    out = []
+    got = observe(a)
+    base = {"notation": show(spec), "got": list(got) + [a.addrLen], "reference": [d.kind, d.net, d.octets]}
+    if got[0] != d.kind:
+        out.append(("denotes:wrong-type", base))
+    if got[1] != d.net or type(got[1]) is not type(d.net):
+        out.append(("denotes:wrong-net", base))
+    if got[2] != d.octets or (d.octets is not None and type(got[2]) is not bytes):
+        out.append(("denotes:wrong-octets", base))
+    if a.addrLen != (None if d.octets is None else len(d.octets)):
+        out.append(("denotes:wrong-length", base))
+    if d.ip is not None and spec[0] == "Address":
+        ip = d.ip
+        want = [("addrIP", ip.word, "word"), ("addrPort", ip.port, "port"), ("addrTuple", (ip.dotted, ip.port), "tuple")]
+        if ip.masklen is not None:
+            want += [("addrMask", ip.mask, "mask"), ("addrSubnet", ip.subnet, "subnet"), ("addrHost", ip.host, "host"),
+                     ("addrBroadcastTuple", (ip.broadcast, ip.port), "directed-broadcast")]
+        for attr, ref_val, label in want:
+            val = getattr(a, attr, _MISSING)
+            if val != ref_val:
+                out.append(("ip:wrong-%s" % label, {"notation": show(spec), "attribute": attr, "got": val, "ipaddress_says": ref_val}))
+    return out
+
+
+def print_faults(txt, d, got, spec):
+    """the printed text read by the reference: a listed notation of the address the object holds, naming no route
+    other than the one the notation gave.  -> [(label, detail)]"""
+    vt = R.denote_text(txt) if isinstance(txt, str) else R.Verdict("refuse", reason="str() did not return text")
+    if vt.status != "ok":
+        return [("print:text-is-not-a-listed-notation", {"notation": show(spec), "printed": txt, "reference": repr(vt)})]
+    if R.class_key(vt.denotation) != got:
+        return [("print:text-denotes-another-address",
+                 {"notation": show(spec), "printed": txt, "text_denotes": list(R.class_key(vt.denotation)), "object_holds": list(got)})]
+    if vt.denotation.route not in (None, d.route):
+        return [("print:text-names-a-route-the-notation-did-not-give",
+                 {"notation": show(spec), "printed": txt, "text_route": vt.denotation.route, "notation_route": d.route})]
+    return []
 
 
 def eval_single(spec):
@@ -261,27 +359,8 @@ def eval_single(spec):
                 [("rejects-valid:%s:%s" % (d.shape, type(exc).__name__), {"notation": show(spec), "error": repr(exc), "reference": repr(d)})], v)
 
     got = observe(a)
-    base = {"notation": show(spec), "got": list(got) + [a.addrLen], "reference": [d.kind, d.net, d.octets]}
-    if got[0] != d.kind:
-        fails.append(("denotes:wrong-type:%s" % d.shape, base))
-    if got[1] != d.net or type(got[1]) is not type(d.net):
-        fails.append(("denotes:wrong-net:%s" % d.shape, base))
-    if got[2] != d.octets or (d.octets is not None and type(got[2]) is not bytes):
-        fails.append(("denotes:wrong-octets:%s" % d.shape, base))
-    if a.addrLen != (None if d.octets is None else len(d.octets)):
-        fails.append(("denotes:wrong-length:%s" % d.shape, base))
-
-    if d.ip is not None and spec[0] == "Address":
-        ip = d.ip
-        want = [("addrIP", ip.word, "word"), ("addrPort", ip.port, "port"), ("addrTuple", (ip.dotted, ip.port), "tuple")]
-        if ip.masklen is not None:
-            want += [("addrMask", ip.mask, "mask"), ("addrSubnet", ip.subnet, "subnet"), ("addrHost", ip.host, "host"),
-                     ("addrBroadcastTuple", (ip.broadcast, ip.port), "directed-broadcast")]
-        for attr, ref_val, label in want:
-            val = getattr(a, attr, _MISSING)
-            if val != ref_val:
-                fails.append(("ip:wrong-%s:%s" % (label, carrier_group(spec)),
-                              {"notation": show(spec), "attribute": attr, "got": val, "ipaddress_says": ref_val}))
+    for label, detail in field_faults(a, d, spec):
+        fails.append(("%s:%s" % (label, carrier_group(spec) if label.startswith("ip:") else d.shape), detail))
 
     # ---- print, read the text with the reference, re-parse with the library.  The round trip is judged against
     # what the object itself holds (`got`), so that a parser fault reported above is not reported again here.
@@ -291,12 +370,8 @@ def eval_single(spec):
     except Exception as err:
         fails.append(("print:raises:%s" % fam, {"notation": show(spec), "error": repr(err)}))
         return "ok-but-unprintable:%s" % d.shape, fails, v
-    vt = R.denote_text(txt) if isinstance(txt, str) else R.Verdict("refuse", reason="str() did not return text")
-    if vt.status != "ok":
-        fails.append(("print:text-is-not-a-listed-notation:%s" % fam, {"notation": show(spec), "printed": txt, "reference": repr(vt)}))
-    elif R.class_key(vt.denotation) != got:
-        fails.append(("print:text-denotes-another-address:%s" % fam,
-                      {"notation": show(spec), "printed": txt, "text_denotes": list(R.class_key(vt.denotation)), "object_holds": list(got)}))
+    for label, detail in print_faults(txt, d, got, spec):
+        fails.append(("%s:%s" % (label, fam), detail))
     try:
         b = pdu.Address(txt)
     except Exception as err:
@@ -603,7 +678,54 @@ def dom_refusals(tier):
         yield ("LocalStation", I(big))
 
 
-DOMAINS = [dom_stations, dom_net_station, dom_refusals, dom_octets, dom_tuples, dom_ports, dom_ip_text, dom_all_nets]
+ROUTE_LEFTS = [
+    "5", "0", "255", "05", "0x05", "0x0102", "0x01020304050607", "0x01020304bac0", "1.2.3.4", "1.2.3.4:47809", "1.2.3.4/24", "10.1.2.3/8:47999",
+    "255.255.255.255/0:65535", "*", "*:*", "5:*", "0:*", "65534:*", "1:2", "0:0", "65534:255", "1:0x0a0b", "7:1.2.3.4", "7:1.2.3.4/24:47809",
+    # must be refused with or without a route
+    "256", "65535:5", "65535:*", "1:256", "1.2.3.4:65536", "1.2.3.4/33", "",
+    # no verdict with or without a route
+    "X'05'", "1:X'05'", "*:5", "01.2.3.4",
+]
+ROUTE_TEXTS = [
+    "0", "3", "03", "255", "256", "999", "0x03", "0x0102", "0x01020304bac0", "0x01020304BAC1", "0x01020304050607", "0x0102030405060708", "0x1", "0x", "0xg1",
+    "1.2.3.4", "1.2.3.4:47808", "1.2.3.4:47809", "1.2.3.4:0", "1.2.3.4:65535", "1.2.3.4:65536", "255.255.255.255:47823", "256.2.3.4", "1.2.3", "1.2.3.4:",
+    "1.2.3.4/24", "01.2.3.4", "*", "", "3@4", "1:3", "X'03'", "x", "-1",
+]
+ROUTE_ARGS = [
+    RT("Address", I(3)), RT("Address", S("3")), RT("Address", S("0x0102")), RT("Address", S("1.2.3.4")), RT("Address", S("1.2.3.4:47809")),
+    RT("Address", TS("1.2.3.4", 47808)), RT("Address", B(b"\x03")), RT("LocalStation", I(3)), RT("LocalStation", B(bytes.fromhex("01020304bac1"))),
+    RT("LocalStation", BA(b"\x01\x02")),
+    # not a plain local station: no verdict
+    RT("Address", S("*")), RT("Address", S("1:3")), RT("Address", S("7@3")),
+]
+ROUTE_CALLS = [
+    ("LocalStation", I(7)), ("LocalStation", B(bytes.fromhex("01020304bac0"))), ("LocalStation", I(256)), ("RemoteStation", I(1), I(2)),
+    ("RemoteStation", I(65534), B(b"\x01\x02")), ("RemoteStation", I(65535), I(2)), ("LocalBroadcast",), ("RemoteBroadcast", I(5)), ("GlobalBroadcast",),
+]
+
+
+def dom_routes(tier):
+    """@route suffixes and route= arguments, read in the default (not route aware) configuration"""
+    for left in ROUTE_LEFTS:
+        for r in ROUTE_TEXTS:
+            yield ("Address", S("%s@%s" % (left, r)))
+    for n in range(0, 257):
+        yield ("Address", S("1:2@%d" % n))
+        yield ("Address", S("7@%d" % n))
+        if n <= 255:
+            yield ("Address", S("1:2@0x%02x" % n))
+            yield ("Address", S("*@0x%02X" % n))
+            yield ("RemoteStation", I(1), I(2), RT("Address", I(n)))
+    for call in ROUTE_CALLS:
+        for r in ROUTE_ARGS:
+            yield call + (r,)
+    # the two-argument constructor takes the route inside the text
+    for net in (0, 1, 65534, 65535):
+        for body in ("5@3", "*@3", "0x0102@1.2.3.4", "1.2.3.4/24:47809@0x0102", "5@256", "3:5@3"):
+            yield ("Address", I(net), S(body))
+
+
+DOMAINS = [dom_stations, dom_net_station, dom_refusals, dom_octets, dom_tuples, dom_ports, dom_ip_text, dom_routes, dom_all_nets]
 
 
 def all_cases(tier):
@@ -646,8 +768,61 @@ def blocks(n, size):
 
 # ----------------------------------------------------------------------------- part B: pool of spellings
 
-def spellings(kind, net, octets):
+def route_forms(route):
+    """every way to write the route `route` (octets of a local station): text after '@', route= arguments"""
+    texts = ["0x" + route.hex()]
+    args = [RT("Address", B(route)), RT("LocalStation", B(route)), RT("Address", S("0x" + route.hex()))]
+    if len(route) == 1:
+        texts += [str(route[0]), "0" + str(route[0])]
+        args += [RT("Address", I(route[0])), RT("LocalStation", I(route[0]))]
+    if len(route) == 6:
+        ip = ".".join(str(x) for x in route[:4])
+        port = int.from_bytes(route[4:], "big")
+        texts.append("%s:%d" % (ip, port))
+        args += [RT("Address", TS(ip, port)), RT("Address", S("%s/24:%d" % (ip, port)))]
+        if port == 47808:
+            texts.append(ip)
+            args.append(RT("Address", S(ip)))
+    return texts, args
+
+
+def routed_spellings(kind, net, octets, route):
+    """Every spelling of one address reached through one route (harness side, as spellings())."""
+    texts, args = route_forms(route)
+    if kind == R.LOCAL_BROADCAST:
+        lefts, calls = ["*"], [("LocalBroadcast",)]
+    elif kind == R.GLOBAL_BROADCAST:
+        lefts, calls = ["*:*"], [("GlobalBroadcast",)]
+    elif kind == R.REMOTE_BROADCAST:
+        lefts, calls = ["%d:*" % net], [("RemoteBroadcast", I(net))]
+    else:
+        lefts = ["0x" + octets.hex()]
+        if octets.hex() != octets.hex().upper():
+            lefts.append("0x" + octets.hex().upper())
+        if len(octets) == 1:
+            lefts += [str(octets[0])]
+        if len(octets) == 6:
+            ip = ".".join(str(x) for x in octets[:4])
+            port = int.from_bytes(octets[4:], "big")
+            lefts += ["%s:%d" % (ip, port), "%s/24:%d" % (ip, port)]
+            if port == 47808:
+                lefts.append(ip)
+        if kind == R.LOCAL_STATION:
+            calls = [("LocalStation", B(octets))] + ([("LocalStation", I(octets[0]))] if len(octets) == 1 else [])
+        else:
+            lefts = ["%d:%s" % (net, left) for left in lefts]
+            calls = [("RemoteStation", I(net), BA(octets))] + ([("RemoteStation", I(net), I(octets[0]))] if len(octets) == 1 else [])
+    out = [("Address", S("%s@%s" % (left, t))) for left in lefts for t in texts]
+    if kind in (R.REMOTE_BROADCAST, R.REMOTE_STATION):
+        out += [("Address", I(net), S("%s@%s" % (left.split(":", 1)[1], texts[0]))) for left in lefts[:1]]
+    out += [call + (r,) for call in calls for r in args]
+    return out
+
+
+def spellings(kind, net, octets, route=None):
     """Every spelling of one address (harness side; the reference classifies each spelling on its own)."""
+    if route is not None:
+        return routed_spellings(kind, net, octets, route)
     out = []
     if kind == R.LOCAL_BROADCAST:
         return [("Address", S("*")), ("LocalBroadcast",)]
@@ -685,7 +860,31 @@ def spellings(kind, net, octets):
     return out
 
 
+ROUTES_QUICK = [b"\x03", b"\x04", bytes.fromhex("01020304bac0")]
+ROUTES_MORE = [bytes.fromhex("01020304bac1"), b"\x01\x02"]
+
+
+def routed_identities(tier):
+    """addresses of the pool that are also spelled with routes: (kind, net, octets, route)"""
+    bases = [(R.LOCAL_BROADCAST, None, None), (R.GLOBAL_BROADCAST, None, None), (R.REMOTE_BROADCAST, 5, None), (R.REMOTE_BROADCAST, 0, None),
+             (R.LOCAL_STATION, None, b"\x05"), (R.LOCAL_STATION, None, b"\x00\x05"), (R.LOCAL_STATION, None, bytes.fromhex("01020304bac0")),
+             (R.LOCAL_STATION, None, bytes.fromhex("01020304bad0")),
+             (R.REMOTE_STATION, 1, b"\x05"), (R.REMOTE_STATION, 0, b"\x00"), (R.REMOTE_STATION, 65534, bytes.fromhex("01020304bac0"))]
+    routes = list(ROUTES_QUICK)
+    if tier == "thorough":
+        bases += [(R.REMOTE_BROADCAST, 65534, None), (R.LOCAL_STATION, None, b"\x03"), (R.LOCAL_STATION, None, b"\x00"), (R.LOCAL_STATION, None, b"\xff"),
+                  (R.LOCAL_STATION, None, bytes.fromhex("01020304bac0ff")), (R.REMOTE_STATION, 1, b"\x00\x05"), (R.REMOTE_STATION, 5, b"\x05"),
+                  (R.REMOTE_STATION, 2, bytes.fromhex("01020304bac1"))]
+        routes += ROUTES_MORE
+    return [base + (route,) for base in bases for route in routes]
+
+
 def pool_identities(tier):
+    """(kind, net, octets, route): the route-less addresses first, then some of them again with routes"""
+    return [ident + (None,) for ident in plain_identities(tier)] + routed_identities(tier)
+
+
+def plain_identities(tier):
     ids = [(R.LOCAL_BROADCAST, None, None), (R.GLOBAL_BROADCAST, None, None)]
     nets = [0, 1, 2, 5, 255, 256, 47808, 65533, 65534]
     for net in nets:
@@ -718,7 +917,7 @@ def build_pool(tier, acc):
                 continue
             seen.add(spec)
             v = R.denote(spec)
-            if v.status != "ok" or R.class_key(v.denotation) != ident:
+            if v.status != "ok" or R.full_key(v.denotation) != ident:
                 raise HarnessError("pool generator and reference disagree on %s: %r vs %r" % (show(spec), ident, v))
             # a spelling the library does not read as the reference does is reported as a parser fault (part A
             # signature) and kept out of the pool: part B judges ==, hash and dict on correctly parsed objects
@@ -730,7 +929,7 @@ def build_pool(tier, acc):
                 obj = build(spec)
             except Exception:
                 continue
-            if observe(obj) != ident:
+            if observe(obj) != ident[:3]:
                 acc.add_info("part B spellings left out (parsed wrongly, reported by part A)")
                 continue
             pool.append((spec, ident, obj))
@@ -740,7 +939,11 @@ def build_pool(tier, acc):
 def eval_pair(si, ki, a, sj, kj, b):
     """-> (equal as the library sees it, [(signature, detail)])"""
     fails = []
+    # keys are (type, net, octets, route).  same: the two spellings denote the same thing in every respect -> must be
+    # equal.  other: they denote different addresses -> must be unequal.  Neither (one address, different routes or
+    # one route and none): the reference does not say; what == answers must agree with hash and dict all the same.
     same = ki == kj
+    other = ki[:3] != kj[:3]
     ctx = {"a": show(si), "b": show(sj), "reference_a": list(ki), "reference_b": list(kj)}
     try:
         e = a == b
@@ -750,7 +953,7 @@ def eval_pair(si, ki, a, sj, kj, b):
     if not isinstance(e, bool) or ne is not (not e):
         fails.append(("eq:ne-disagrees-with-eq", dict(ctx, eq=repr(e), ne=repr(ne))))
     e = bool(e)
-    if e and not same:
+    if e and other:
         differs = [name for name, x, y in zip(("type", "net", "octets"), ki, kj) if x != y]
         fails.append(("eq:equal-although-%s-differs" % "+".join(differs), ctx))
     if same and not e:
@@ -762,11 +965,17 @@ def eval_pair(si, ki, a, sj, kj, b):
         return e, fails
     if same and ha != hb:
         fails.append(("hash:differs-between-spellings-of-one-address", dict(ctx, hashes=[ha, hb])))
+    elif e and not other and ha != hb:
+        fails.append(("hash:differs-between-addresses-that-compare-equal", dict(ctx, hashes=[ha, hb])))
     found = b in {a: 1}
     if same and not found:
         fails.append(("dict:lookup-misses-other-spelling", ctx))
-    if found and not same:
+    elif e and not other and not found:
+        fails.append(("dict:lookup-misses-address-that-compares-equal", ctx))
+    if found and other:
         fails.append(("dict:lookup-hits-another-address", ctx))
+    elif found and not e:
+        fails.append(("dict:lookup-hits-address-that-compares-unequal", ctx))
     return e, fails
 
 
@@ -813,7 +1022,9 @@ def part_b(tier, acc, deadline):
     for idx, (spec, key, obj) in enumerate(pool):
         classes.setdefault(key, []).append(idx)
     acc.info["part B pool spellings"] = n
+    acc.info["part B pool spellings with a route"] = sum(1 for _, key, _ in pool if key[3] is not None)
     acc.info["part B reference classes"] = len(classes)
+    acc.info["part B addresses (type, net, octets)"] = len(set(key[:3] for key in classes))
     acc.info["part B ordered pairs evaluated"] = len(rows) * n
     if len(rows) != n:
         acc.cap("part B: %d of %d rows evaluated; symmetry/transitivity only over those" % (len(rows), n))
@@ -826,41 +1037,237 @@ def part_b(tier, acc, deadline):
         for j in set_bits(ri & have):
             transposed[j] |= 1 << i
     triples = 0
+    equivalence = True
     for i, ri in sorted(rows.items()):
         for j in set_bits((transposed[i] ^ ri) & have):
+            equivalence = False
             acc.fail("eq:not-symmetric", {"a": show(pool[i][0]), "b": show(pool[j][0]), "a==b": bool((ri >> j) & 1), "b==a": bool((rows[j] >> i) & 1)},
                      {"part": "pair", "a": pool[i][0], "b": pool[j][0]})
         if not (ri >> i) & 1:
+            equivalence = False
             acc.fail("eq:not-reflexive", {"a": show(pool[i][0])}, {"part": "pair", "a": pool[i][0], "b": pool[i][0]})
         for j in set_bits(ri & have):
             extra = rows[j] & ~ri               # a==b and b==c but not a==c
             if extra:
+                equivalence = False
                 k = (extra & -extra).bit_length() - 1
-                acc.fail("eq:not-transitive", {"a": show(pool[i][0]), "b": show(pool[j][0]), "c": show(pool[k][0])},
+                acc.fail(transitivity_signature(pool[i][1], pool[j][1], pool[k][1]),
+                         {"a": show(pool[i][0]), "b": show(pool[j][0]), "c": show(pool[k][0]), "a==b": True, "b==c": True, "a==c": False},
                          {"part": "triple", "a": pool[i][0], "b": pool[j][0], "c": pool[k][0]})
         triples += len(rows) * n                # every (b, c) for this a is decided by the two subset tests above
     acc.info["part B triples decided on the matrix"] = triples
-    # one dictionary holding the whole pool: one entry per reference class, every spelling finds its class
-    table = {}
-    unhashable = 0
-    for idx, (spec, key, obj) in enumerate(pool):
-        try:
-            table.setdefault(obj, key)
-        except TypeError as err:
-            unhashable += 1
-            acc.fail("hash:raises", {"spelling": show(spec), "error": repr(err)}, {"part": "pair", "a": spec, "b": spec})
-    acc.evaluations += n
-    if unhashable:
-        return
-    if len(table) != len(classes):
-        acc.fail("dict:pool-collapses-to-wrong-number-of-entries", {"entries": len(table), "reference_classes": len(classes)},
-                 {"part": "table", "tier": tier})
-    for spec, key, obj in pool:
-        if table.get(obj) != key:
-            acc.fail("dict:lookup-hits-another-address" if obj in table else "dict:lookup-misses-other-spelling",
-                     {"spelling": show(spec), "found": table.get(obj), "reference": list(key)}, {"part": "table", "tier": tier})
-            break
+    eq_classes = len(set(rows.values())) if equivalence and len(rows) == n else None
+    for sig, detail in table_faults(pool, eq_classes):
+        acc.fail(sig, detail, {"part": "table", "tier": tier})
+    acc.evaluations += 2 * n
     acc.sample({"part": "B", "a_class_of_spellings": [show(pool[i][0]) for i in max(classes.values(), key=len)]})
+
+
+def transitivity_signature(ka, kb, kc):
+    """a == b and b == c but a != c.  One known shape gets its own name: one address, a and c with two different
+    routes, b without a route (== looks at the routes only when both sides carry one)."""
+    if ka[:3] == kb[:3] == kc[:3] and kb[3] is None and ka[3] is not None and kc[3] is not None and ka[3] != kc[3]:
+        return "eq:not-transitive:route-compared-only-when-both-sides-carry-one"
+    return "eq:not-transitive"
+
+
+def table_faults(pool, eq_classes):
+    """One dictionary over the route-less spellings: one entry per address, every spelling finds its address.
+    One dictionary over the whole pool (spellings with routes included): every spelling finds an entry of its own
+    address; at least one entry per address, at most one per (address, route); and - when == was found to be an
+    equivalence relation on the pool - exactly one entry per class of ==.  -> [(signature, detail)]"""
+    out = []
+    for label, members in (("route-less spellings", [m for m in pool if m[1][3] is None]), ("whole pool", pool)):
+        whole = label == "whole pool"
+        table = {}
+        try:
+            for spec, key, obj in members:
+                table.setdefault(obj, key)
+        except TypeError as err:
+            out.append(("hash:raises", {"spelling": show(spec), "error": repr(err)}))
+            continue
+        full = set(key for _, key, _ in members)
+        bases = set(key[:3] for key in full)
+        detail = {"dictionary_over": label, "entries": len(table), "reference_classes": len(full), "addresses": len(bases)}
+        if not whole and len(table) != len(full):
+            out.append(("dict:pool-collapses-to-wrong-number-of-entries", detail))
+        if whole and not (len(bases) <= len(table) <= len(full)):
+            out.append(("dict:pool-collapses-to-wrong-number-of-entries", detail))
+        elif whole and eq_classes is not None and len(table) != eq_classes:
+            out.append(("dict:entries-differ-from-classes-of-equality", dict(detail, classes_of_equality=eq_classes)))
+        for spec, key, obj in members:
+            found = table.get(obj)
+            if found is None or found[:3] != key[:3] or (not whole and found != key):
+                out.append(("dict:lookup-hits-another-address" if obj in table else "dict:lookup-misses-other-spelling",
+                            {"dictionary_over": label, "spelling": show(spec), "found": found, "reference": list(key)}))
+                break
+    return out
+
+
+# ----------------------------------------------------------------------------- part C: one object, filled again and again
+
+HIST_NOTATIONS = [
+    S("*"), S("*:*"), S("3:*"), S("0:*"), S("65534:*"),
+    I(7), I(0), S("9"), S("0x0b"), S("X'0C'"), S("0x0102"), S("X'010203'"), B(b"\x0d"), BA(bytes.fromhex("01020304050607")),
+    S("2:5"), S("2:0x06"), S("2:X'0708'"), S("0:255"), S("65534:0"),
+    S("1.2.3.4"), S("1.2.3.4:47809"), S("10.1.2.3/24"), S("10.1.2.3/8:47999"), S("4:1.2.3.4"), S("4:10.1.2.3/24:47809"),
+    TS("1.2.3.4", 47808), TI(0x0A000001, 47810), B(bytes.fromhex("01020304bac0")), BA(bytes.fromhex("0a0000010001")),
+    # with a route
+    S("1:2@3"), S("1:2@4"), S("7@0x0102"), S("5:*@1.2.3.4"), S("*@9"), S("*:*@1.2.3.4:47809"), S("1.2.3.4@5"),
+    # accepted, not in the statement's list (judged against a fresh object only)
+    S("01:02:03:04:05:06"), S("*:5"),
+    # refused: decode_address raises somewhere on its way, after part of the object may have been written
+    S("1:256"), S("65535:5"), S("65535:*"), S("1.2.3.4:65536"), S("4:300.1.1.1"), S("300"), I(256), I(-1), S("1:2@256"), S("5:*@1.2.3.4:65536"),
+    S("no address"), TS("1.2.3.4", 65536),
+]
+HIST_HOLDERS = [
+    ("Address",), ("Address", I(5), I(6)), ("LocalStation", I(7)), ("LocalStation", B(bytes.fromhex("01020304bac0"))),
+    ("RemoteStation", I(8), B(b"\x01\x02")), ("RemoteStation", I(8), I(5), RT("Address", I(3))), ("LocalBroadcast",), ("RemoteBroadcast", I(9)),
+    ("GlobalBroadcast",), ("LocalBroadcast", RT("Address", S("1.2.3.4"))), ("RemoteBroadcast", I(9), RT("LocalStation", B(b"\x01\x02"))),
+]
+_PROBES = []        # (text, object): what the re-filled object and the fresh one are compared against
+
+
+def history_probes():
+    out = []
+    for arg in HIST_NOTATIONS:
+        try:
+            out.append((show(("Address", arg)), build(("Address", arg))))
+        except Exception:
+            pass
+    for spec in HIST_HOLDERS[1:]:
+        out.append((show(spec), build(spec)))
+    return out
+
+
+def show_history(holder, steps):
+    return "%s%s" % (show(holder), "".join(".decode_address(%s)" % show_arg(a) for a in steps))
+
+
+def eval_history(holder, steps):
+    """`holder` is built, then every notation of `steps` is decoded into that one object through the public
+    decode_address(); refused notations in the middle raise and are passed over.  The last notation is judged:
+    the object must be what the reference says the notation denotes, and print / compare / hash / look up exactly
+    like a fresh Address(notation).  -> (outcome label, [(signature, detail)])"""
+    text = show_history(holder, steps)
+    obj = build(holder)
+    for arg in steps[:-1]:
+        try:
+            obj.decode_address(to_arg(arg))
+        except Exception:
+            pass
+    before = KIND.get(obj.addrType, "?")
+    last = steps[-1]
+    spec = ("Address", last)
+    v = R.denote(spec)
+    try:
+        fresh, fexc = pdu.Address(to_arg(last)), None
+    except Exception as err:
+        fresh, fexc = None, err
+    try:
+        obj.decode_address(to_arg(last))
+        exc = None
+    except Exception as err:
+        exc = err
+    pre = "history:object-filled-again:"
+    if fexc is not None:
+        # a fresh Address refuses the notation (if it should not have, part A says so): a used object must refuse it too
+        if exc is None:
+            return "history:%s->accepted-though-fresh-refuses" % before, [(pre + "accepts-what-a-fresh-address-refuses",
+                                                                        {"history": text, "fresh": repr(fexc), "object_holds": list(observe(obj))})]
+        return "history:%s->refused-as-fresh" % before, []
+    if exc is not None:
+        return "history:%s->rejected" % before, [(pre + "rejects-what-a-fresh-address-accepts:%s" % type(exc).__name__, {"history": text, "error": repr(exc)})]
+
+    fails = []
+    got = observe(obj)
+    if v.status == "ok":
+        d = v.denotation
+        for label, detail in field_faults(obj, d, spec):
+            fails.append((pre + label, dict(detail, history=text)))
+    # ---- against the fresh object: fields, text, ==, hash, dict, and == with every probe address
+    if (got, obj.addrLen) != (observe(fresh), fresh.addrLen) and not fails:
+        fails.append((pre + "holds-other-fields-than-fresh", {"history": text, "object_holds": list(got) + [obj.addrLen],
+                                                               "fresh_holds": list(observe(fresh)) + [fresh.addrLen]}))
+    # an object that holds another type / net / octets than it should compares and hashes accordingly: that is the
+    # same fault once more, not reported again; with the right fields ==, hash and dict are judged in their own right
+    wrong_fields = bool(fails)
+    try:
+        txt, ftxt = str(obj), str(fresh)
+    except Exception as err:
+        fails.append((pre + "print-raises", {"history": text, "error": repr(err)}))
+        return "history:%s->%s:unprintable" % (before, got[0]), fails
+    if txt != ftxt:
+        fails.append((pre + "prints-unlike-fresh", {"history": text, "printed": txt, "fresh_prints": ftxt, "object_holds": list(got)}))
+    if v.status == "ok":
+        for label, detail in print_faults(txt, v.denotation, got, spec):
+            if not (label == "print:text-denotes-another-address" and fails):     # the wrong field is already reported
+                fails.append((pre + label, dict(detail, history=text)))
+    try:
+        eqs = (obj == fresh, fresh == obj, obj != fresh)
+        hashes = (hash(obj), hash(fresh))
+        lookups = ({fresh: 1}.get(obj), {obj: 1}.get(fresh))
+    except Exception as err:
+        fails.append((pre + "eq-or-hash-raises", {"history": text, "error": repr(err)}))
+        return "history:%s->%s:eq-raises" % (before, got[0]), fails
+    if wrong_fields:
+        return "history:%s->%s:unlike-fresh" % (before, got[0]), fails
+    if eqs != (True, True, False):
+        fails.append((pre + "unequal-to-fresh", {"history": text, "obj==fresh,fresh==obj,obj!=fresh": list(eqs), "object_holds": list(got)}))
+    if hashes[0] != hashes[1]:
+        fails.append((pre + "hash-unlike-fresh", {"history": text, "object_holds": list(got), "fresh_holds": list(observe(fresh))}))
+    if lookups != (1, 1):
+        fails.append((pre + "dict-lookup-unlike-fresh", {"history": text, "fresh_table_finds_object,object_table_finds_fresh": list(lookups)}))
+    for ptxt, probe in _PROBES:
+        try:
+            mine, his = (obj == probe, probe == obj), (fresh == probe, probe == fresh)
+        except Exception as err:
+            mine, his = repr(err), None
+        if mine != his:
+            fails.append((pre + "compares-unlike-fresh", {"history": text, "probe": ptxt, "object==probe,probe==object": mine, "fresh==probe,probe==fresh": his}))
+            break
+    return "history:%s->%s:%s" % (before, got[0], "as-fresh" if not fails else "unlike-fresh"), fails
+
+
+_HIST = {"depth": 2}
+
+
+def history_items(depth):
+    """shards: (holder index, index of the first notation); the shard enumerates the rest of the sequence"""
+    return [(h, f) for h in range(len(HIST_HOLDERS)) for f in range(len(HIST_NOTATIONS))]
+
+
+def shard_history(item, deadline):
+    h, f = item
+    acc = Acc()
+    holder = HIST_HOLDERS[h]
+    first = HIST_NOTATIONS[f]
+    done = 0
+    for extra in range(0, _HIST["depth"]):
+        for rest in itertools.product(HIST_NOTATIONS, repeat=extra):
+            if done % 256 == 0 and time.time() > deadline:
+                acc.cap("part C: deadline inside a shard of histories")
+                return acc
+            done += 1
+            steps = (first,) + rest
+            outcome, fails = eval_history(holder, steps)
+            acc.case(("C", holder, steps))
+            acc.outcome(outcome)
+            acc.add_info("part C histories of length %d" % len(steps))
+            for sig, detail in fails:
+                acc.fail(sig, detail, {"part": "history", "holder": holder, "steps": steps})
+    return acc
+
+
+def part_c(tier, acc, deadline):
+    _HIST["depth"] = 3 if tier == "thorough" else 2
+    _PROBES[:] = history_probes()
+    acc.info["part C holders"] = len(HIST_HOLDERS)
+    acc.info["part C notations"] = len(HIST_NOTATIONS)
+    acc.info["part C probe addresses"] = len(_PROBES)
+    run_shards(shard_history, history_items(_HIST["depth"]), deadline, into=acc, ordered=True)
+    acc.sample({"part": "C", "history": show_history(HIST_HOLDERS[4], (HIST_NOTATIONS[2], HIST_NOTATIONS[0])),
+                "outcome": eval_history(HIST_HOLDERS[4], (HIST_NOTATIONS[2], HIST_NOTATIONS[0]))[0]})
 
 
 # ----------------------------------------------------------------------------- entry points
@@ -868,6 +1275,7 @@ def part_b(tier, acc, deadline):
 def run(tier, seed, deadline):
     if settings.route_aware:
         raise HarnessError("settings.route_aware is set; C18 is stated for the default (route-unaware) configuration")
+    quiet_route_warnings()
     acc = Acc()
     for name, count in all_cases(tier):
         acc.info["part A %s" % name] = count
@@ -887,6 +1295,8 @@ def run(tier, seed, deadline):
     run_shards(shard_single, blocks(n, 2048), deadline, into=acc, ordered=True)
     acc.info["part A cases"] = n
     part_b(tier, acc, deadline)
+    part_c(tier, acc, deadline)
+    acc.info["route warnings logged by the parser (parent process)"] = _Counting.records
     # written-out cases; the seed only rotates which ones
     for k in range(4):
         spec = _CASES[(seed * 7919 + k * (n // 4) + 17 * k) % n]
@@ -896,6 +1306,7 @@ def run(tier, seed, deadline):
 
 
 def replay(case):
+    quiet_route_warnings()
     part = case["part"]
     if part == "single":
         spec = norm(case["spec"])
@@ -912,7 +1323,7 @@ def replay(case):
         objs, keys = [], []
         for s in specs:
             v = R.denote(s)
-            keys.append(R.class_key(v.denotation) if v.status == "ok" else ("?", None, None))
+            keys.append(R.full_key(v.denotation) if v.status == "ok" else ("?", None, None, None))
             objs.append(build(s))
         fails = []
         eqs = {}
@@ -924,18 +1335,25 @@ def replay(case):
             if eqs[x + "==" + y] != eqs[y + "==" + x]:
                 fails.append(("eq:not-symmetric", x + y))
         if part == "triple":
+            by_name = dict(zip(names, keys))
             for x, y, z in itertools.permutations(names, 3):
                 if eqs[x + "==" + y] and eqs[y + "==" + z] and not eqs[x + "==" + z]:
-                    fails.append(("eq:not-transitive", x + y + z))
+                    fails.append((transitivity_signature(by_name[x], by_name[y], by_name[z]), x + y + z))
         return not fails, "%s: %r %r" % (", ".join(show(s) for s in specs), eqs, fails[:4])
+    if part == "history":
+        _PROBES[:] = history_probes()
+        holder, steps = norm(case["holder"]), norm(case["steps"])
+        outcome, fails = eval_history(holder, steps)
+        return not fails, "%s: %s %r" % (show_history(holder, steps), outcome, fails[:4])
     if part == "table":
         acc = Acc()
         pool = build_pool(case.get("tier", "quick"), acc)
-        table = {}
-        for spec, key, obj in pool:
-            table.setdefault(obj, key)
-        classes = set(key for _, key, _ in pool)
-        bad = [show(spec) for spec, key, obj in pool if table.get(obj) != key]
-        ok = len(table) == len(classes) and not bad
-        return ok, "one dict over the pool: %d entries for %d reference classes; wrong lookups: %r" % (len(table), len(classes), bad[:5])
+        n = len(pool)
+        eqm = [[bool(a == b) for _, _, b in pool] for _, _, a in pool]
+        rows = [frozenset(j for j in range(n) if eqm[i][j]) for i in range(n)]
+        # reflexive, and every member of a row has the very same row: then == is an equivalence on the pool
+        equivalence = all(i in rows[i] and all(rows[j] == rows[i] for j in rows[i]) for i in range(n))
+        rows = set(rows)
+        faults = table_faults(pool, len(rows) if equivalence else None)
+        return not faults, "dictionaries over the pool (%d spellings, == %s an equivalence): %r" % (n, "is" if equivalence else "is not", faults[:3])
     return False, "unknown part"
